@@ -2,6 +2,7 @@ package c03
 
 import (
 	"os"
+	"strings"
 
 	"wzverif/internal/gen"
 	"wzverif/internal/ops"
@@ -110,6 +111,7 @@ func fixedCases() []Case {
 		ops.Op{K: "cellpborder4", I: []int{0, 2, 2, 0, 6, 1, 8, 2, 10, 3, 12, 4}, S: []string{"dashed", "123456", "single", "654321", "double", "ABCDEF", "dotted", "FEDCBA"}, B: []bool{true, true, true, true}},
 		ops.Op{K: "margins", F: []float64{11, 22, 33, 44}})
 	all = append(all, c)
+	all = append(all, wideFixedCases()...)
 	all = append(all, bigFixedCases()...)
 	return all
 }
@@ -154,6 +156,80 @@ func bigFixedCases() []Case {
 		ops.Op{K: "mergeh", I: []int{1, 0, 60, 63}},
 		ops.Op{K: "manyimages", I: []int{101, 33}},
 		ops.Op{K: "margins", F: []float64{10, 10, 10, 10}})
+	all = append(all, c)
+	return all
+}
+
+// wideFixedCases pin, whatever the seed, the entry points and narrow sub-domains added by widen.go: counts just past one
+// digit (a span of 11 columns, the 11th picture / list item, with more added after a reopen), the text classes at the
+// edges, the formatting that only exported struct fields express, field runs in body paragraphs, Document.Save as the
+// saving entry point, and two documents built alternately.
+func wideFixedCases() []Case {
+	img := func(i int) *gen.Img {
+		return &gen.Img{Fmt: []string{"png", "jpeg", "gif"}[i%3], W: 2 + i%5, H: 1 + i%3, Pat: 700 + i, Name: []string{"image0.png", "image10.png", "p.jpg", "image9.gif"}[i%4]}
+	}
+	png := func(i int) *gen.Img { // one format, so that equal numbers mean equal part names
+		return &gen.Img{Fmt: "png", W: 2 + i%5, H: 1 + i%3, Pat: 900 + i, Name: "p.png"}
+	}
+	var all []Case
+
+	// 6. thresholds: 11 pictures and 11 list items, reopen, then only additions (more pictures in body and cell, list items)
+	c := Case{Cycles: 2, SaveAPI: true, File: true}
+	row := func(n int) []string {
+		var out []string
+		for i := 0; i < n; i++ {
+			out = append(out, []string{"c", " c", "c\t", "\nc", "中"}[i%5])
+		}
+		return out
+	}
+	c.Ops = append(c.Ops, ops.Op{K: "table", I: []int{2, 2, 4000}})
+	for i := 0; i < 11; i++ {
+		c.Ops = append(c.Ops, ops.Op{K: "image", Img: png(i), I: []int{0, 0, 0, 0}, F: []float64{0, 0}, S: []string{"", "", ""}},
+			ops.Op{K: "listitem", S: []string{"item"}, I: []int{i, i, 1, i % 3}})
+	}
+	c.Ops = append(c.Ops, ops.Op{K: "cellimgcfg", Img: png(20), I: []int{0, 1, 1, 1, 1}, F: []float64{12, 0}, S: []string{"alt", "title"}},
+		ops.Op{K: "reopen", B: []bool{false}},
+		ops.Op{K: "image", Img: png(30), I: []int{0, 0, 0, 0}, F: []float64{0, 0}, S: []string{"", "", ""}},
+		ops.Op{K: "imagefloat", Img: png(31), I: []int{0, 1, 0, 2}, F: []float64{0, 0, 3, 0}, S: []string{"", "", ""}},
+		ops.Op{K: "cellimg", Img: png(32), I: []int{0, 0, 0}, F: []float64{8}},
+		ops.Op{K: "listitem", S: []string{"after reopen"}, I: []int{1, 0, 1, 0}}, ops.Op{K: "multilist", S: []string{"a", "b"}, I: []int{0, 2, 0, 1, 1, 3, 0, 5}})
+	all = append(all, c)
+
+	// 7. edge classes of text in body paragraphs, added runs and cell paragraphs; struct-only formatting; field runs; page settings at their defaults
+	c = Case{Cycles: 3, SaveAPI: true}
+	for _, s := range []string{"\tx", "x\n", "\r", "\r\nx\r\n", "\u00a0x\u00a0", "\u3000", "\u2028x\u2028", "\u0085x", "\ufeffx\ufeff", "\u200bx", "😀x", "x𝔘", "😀", "\u0301x", "x\U0010FFFD",
+		"<w:t xml:space=\"preserve\"> x </w:t>", "&#10;", "]]>", " x\t", strings.Repeat("a", 254) + "😀z"} {
+		c.Ops = append(c.Ops, ops.Op{K: "para", S: []string{s}})
+	}
+	c.Ops = append(c.Ops, ops.Op{K: "addtext", I: []int{0}, S: []string{"\n"}}, ops.Op{K: "addtext", I: []int{1}, S: []string{"\t\u2028"}, Fmt: &ops.Fmt{Bold: true}},
+		ops.Op{K: "table", I: []int{2, 2, 6000}}, ops.Op{K: "cellpara", I: []int{0, 0, 0}, S: []string{"\tcell paragraph\n"}}, ops.Op{K: "cellfpara", I: []int{0, 1, 1}, S: []string{"\u00a0\r"}, Fmt: &ops.Fmt{Italic: true}},
+		ops.Op{K: "structprops", I: []int{0, 0, 1, 720}, S: []string{"dxa", "1", ""}, B: []bool{true, true, true}},
+		ops.Op{K: "structprops", I: []int{0, 1, 0, -360}, S: []string{"auto", "", "0"}, B: []bool{true, true, true}},
+		ops.Op{K: "rowprops", I: []int{0, 0}, B: []bool{true, true, true, true}}, ops.Op{K: "rowprops", I: []int{0, 1}, B: []bool{false, true, true, true}},
+		ops.Op{K: "tbllayout", I: []int{0, 3, 2, 2}}, ops.Op{K: "customtblstyle", I: []int{0, 8, 0}, S: []string{"MyTable", "My Table", "double", "00FF00", "pct25", "auto", "EEEEEE"}, B: []bool{true, true, true}},
+		ops.Op{K: "fieldruns", I: []int{2, 0}, S: []string{"_Toc10", " link text "}}, ops.Op{K: "fieldruns", I: []int{3, 1}, S: []string{"bm", "7"}},
+		ops.Op{K: "pagesettings", I: []int{0, 2, 312, 0}, F: []float64{210, 297, 25.4, 25.4, 25.4, 25.4, 12.7, 12.7, 0}, B: []bool{false}},
+		ops.Op{K: "savefile"}, ops.Op{K: "addtext", I: []int{4}, S: []string{"after Save\t"}},
+		ops.Op{K: "pagesettings", I: []int{5, 0, 0, -105}, F: []float64{148.5, 200.25, 0, 10, 31.75, 20.5, 0, 12.7, 10}, B: []bool{true}},
+		ops.Op{K: "copytable", I: []int{0}}, ops.Op{K: "tblread", I: []int{0, 0, 0, 1, 1}, S: []string{"cell"}}, op("docread"),
+		ops.Op{K: "delrows", I: []int{1, 0, 0}},
+		// shapes past one digit: a span of 11 columns, a range merge over 10, a vertical merge over 11 rows
+		ops.Op{K: "table", I: []int{3, 12, 9000}, Grid: [][]string{row(12), row(12), row(12)}},
+		ops.Op{K: "mergeh", I: []int{2, 0, 1, 11}}, ops.Op{K: "merger", I: []int{2, 1, 2, 0, 9}},
+		ops.Op{K: "createtable", I: []int{11, 2, 5000}, B: []bool{true}}, ops.Op{K: "mergev", I: []int{3, 0, 10, 1}},
+		ops.Op{K: "image", Img: img(60), I: []int{0, 0, 0, 0}, F: []float64{0, 0}, S: []string{"", "", ""}}, ops.Op{K: "imgpos", I: []int{0, 1}, F: []float64{5, 5}},
+		ops.Op{K: "imgwrap", I: []int{0, 3}}, ops.Op{K: "imgresize", I: []int{0, 1}, F: []float64{40, 30}})
+	all = append(all, c)
+
+	// 8. two documents built alternately, both with pictures, lists, tables and page settings
+	c = Case{Cycles: 2, File: true}
+	for i := 0; i < 6; i++ {
+		c.Ops = append(c.Ops, ops.Op{K: "para", S: []string{"first document"}}, ops.Op{K: "image", Img: img(40 + i), I: []int{0, 0, 0, 0}, F: []float64{0, 0}, S: []string{"", "", ""}})
+		c.Other = append(c.Other, ops.Op{K: "image", Img: img(50 + i), I: []int{0, 0, 0, 0}, F: []float64{0, 0}, S: []string{"", "", ""}}, ops.Op{K: "para", S: []string{" second document "}})
+	}
+	c.Ops = append(c.Ops, ops.Op{K: "listitem", S: []string{"one"}, I: []int{1, 0, 1, 0}}, ops.Op{K: "margins", F: []float64{30, 30, 30, 30}}, ops.Op{K: "header", I: []int{0}, S: []string{"first"}})
+	c.Other = append(c.Other, ops.Op{K: "listitem", S: []string{"uno"}, I: []int{0, 1, 1, 0}}, ops.Op{K: "orient", B: []bool{true}}, ops.Op{K: "footerpn", I: []int{0}, S: []string{"second"}, B: []bool{true}},
+		ops.Op{K: "table", I: []int{2, 2, 5000}, Grid: [][]string{{"a", "b"}, {"c", "d"}}})
 	all = append(all, c)
 	return all
 }
